@@ -149,12 +149,17 @@ def acSkip (d : Delims) (pre rest : List Char) (m : AcMatch) : Bool :=
 
 def bestOf (d : Delims) (m : AcMatch) : Found := some (m.start, patternToMarker d m.idx, m.len)
 
+theorem acPick_eq (d : Delims) (pre rest : List Char) (best : Found) (m : AcMatch) :
+    acPick d pre rest best m = if acSkip d pre rest m then best else bestOf d m := by
+  simp only [acPick, acSkip, bestOf]
+  rfl
+
 theorem acLoop_cons_none (d : Delims) (maxLen : Nat) (pre rest : List Char) (m : AcMatch) (ms : List AcMatch) :
     acLoop d maxLen pre rest none (m :: ms) =
       if acSkip d pre rest m then acLoop d maxLen pre rest none ms
       else acLoop d maxLen pre rest (bestOf d m) ms := by
-  simp only [acLoop, acSkip, bestOf]
-  rfl
+  rw [acLoop, acPick_eq]
+  cases acSkip d pre rest m <;> simp
 
 theorem acLoop_cons_some (d : Delims) (maxLen : Nat) (pre rest : List Char) (x m : AcMatch) (ms : List AcMatch) :
     acLoop d maxLen pre rest (bestOf d x) (m :: ms) =
@@ -162,8 +167,10 @@ theorem acLoop_cons_some (d : Delims) (maxLen : Nat) (pre rest : List Char) (x m
       else if m.start > x.start then acLoop d maxLen pre rest (bestOf d x) ms
       else if acSkip d pre rest m then acLoop d maxLen pre rest (bestOf d x) ms
       else acLoop d maxLen pre rest (bestOf d m) ms := by
-  simp only [acLoop, acSkip, bestOf]
-  rfl
+  simp only [bestOf]
+  rw [acLoop, acPick_eq]
+  simp only [bestOf]
+  cases acSkip d pre rest m <;> simp
 
 /-- facts about the target `T` (the leftmost, then longest, match that counts) relative to the
     matches that count (`acSkip = false`) among the occurrences `Occ` -/
